@@ -177,6 +177,17 @@ def target_positions(ref_pos, anch, m, place, seed, margin=MARGIN):
             else:
                 raise RuntimeError('target_positions: no tie-free far point')
             out.append(p)
+    elif place == 'veryfar':
+        # hundreds of nm away: any per-frame error that scales with the distance to the anchor shows up
+        c = ref_pos.mean(axis=0)
+        for k in range(m):
+            for t in range(len(G)):
+                p = c + 400.0 * G[(t + 9) % len(G)] + 3.0 * G[(k + t + 31) % len(G)]
+                if _margin(p, apos) >= margin:
+                    break
+            else:
+                raise RuntimeError('target_positions: no tie-free very far point')
+            out.append(p)
     elif place == 'onanchor':
         # target atoms sitting (almost) ON reference atoms: offsets of a few 1e-9 nm, i.e. local coordinates far
         # below anything a "noise clean-up" would keep, yet 1e7 times above rounding
@@ -242,21 +253,28 @@ _REF = {}
 _TGT = {}
 
 
-def ref_molecule(n, edges):
-    key = (n, tuple(tuple(e) for e in edges))
+def ref_molecule(n, edges, nres=1):
+    key = (n, tuple(tuple(e) for e in edges), nres)
     if key not in _REF:
         if len(_REF) > 64:
             _REF.clear()
-        _REF[key] = molecule('REF', simple_atoms(n, 'REF', 'C'), [tuple(e) for e in edges],
-                             generic_points(n, 0, tag=1))
+        atoms = simple_atoms(n, 'REF', 'C')
+        if nres == 2:                 # two residues (the map requires as many residues as its target has)
+            atoms = [(f'C{i + 1}', 'RFA' if i < 1 else 'RFB', 1 if i < 1 else 2) for i in range(n)]
+        _REF[key] = molecule('REF', atoms, [tuple(e) for e in edges], generic_points(n, 0, tag=1))
     return _REF[key]
 
 
-def tgt_molecule(m):
-    if m not in _TGT:
-        _TGT[m] = molecule('TGT', simple_atoms(m, 'TGT', 'H'), [(i, i + 1) for i in range(m - 1)],
-                           generic_points(m, 0, tag=2, min_sin=0.0))
-    return _TGT[m]
+def tgt_molecule(m, nres=1):
+    """Target of m atoms in one residue, or (nres=2) split into two differently named residues."""
+    if (m, nres) not in _TGT:
+        atoms = simple_atoms(m, 'TGT', 'H')
+        if nres == 2:
+            h = (m + 1) // 2
+            atoms = [(f'H{i + 1}', 'TGA' if i < h else 'TGB', 1 if i < h else 2) for i in range(m)]
+        _TGT[(m, nres)] = molecule('TGT', atoms, [(i, i + 1) for i in range(m - 1)],
+                                   generic_points(m, 0, tag=2, min_sin=0.0))
+    return _TGT[(m, nres)]
 
 
 def placed(mol, pos):
